@@ -43,6 +43,17 @@ type ReleaseManager interface {
 	fetchClient() client.Client
 }
 
+// isStepUpgradeDone returns true if a step in the given state has already upgraded its pods
+// and seen them ready, i.e. it is past StepUpgrade.
+func isStepUpgradeDone(state v1beta1.CanaryStepState) bool {
+	switch state {
+	case v1beta1.CanaryStepStateTrafficRouting, v1beta1.CanaryStepStateMetricsAnalysis,
+		v1beta1.CanaryStepStatePaused, v1beta1.CanaryStepStateReady, v1beta1.CanaryStepStateCompleted:
+		return true
+	}
+	return false
+}
+
 func fetchBatchRelease(cli client.Client, ns, name string) (*v1beta1.BatchRelease, error) {
 	br := &v1beta1.BatchRelease{}
 	// batchRelease.name is equal related rollout.name
